@@ -2,6 +2,7 @@
 Helper lemmas for `StubGen.Theorems.C06` / `C07`: the state-monad computations `createParameter`,
 `createParameters`, `createParameterString`, `createResults`, `createResultString` of the generator
 model written out as explicit equations on `Except PyErr (α × St)`, and the list inductions on them.
+(Helper lemmas added after the model followed the "None result among several" repair carry the prefix `pp_`.)
 -/
 import StubGen.Model.Gen
 import StubGen.Spec.Params
@@ -313,14 +314,8 @@ theorem createResults_untyped (env : Env) (r : Result) (rs : List Result) (st : 
     createResults env (r :: rs) st = createResults env rs st := by
   simp only [createResults, h]
 
-theorem createResults_noneResult (env : Env) (r : Result) (rs : List Result) (st : St) {t : AType}
-    (h : r.type = some t) (hn : isNoneNamed t = true) :
-    createResults env (r :: rs) st = .ok (none, st) := by
-  simp only [createResults, h, hn, if_true]
-  rfl
-
 theorem createResults_typed (env : Env) (r : Result) (rs : List Result) (st : St) {t : AType}
-    (h : r.type = some t) (hn : isNoneNamed t = false) :
+    (h : r.type = some t) :
     createResults env (r :: rs) st =
       match typeStr env t st with
       | .error e => .error e
@@ -328,9 +323,8 @@ theorem createResults_typed (env : Env) (r : Result) (rs : List Result) (st : St
         match createResults env rs st₁ with
         | .error e => .error e
         | .ok (rest, st₂) =>
-          .ok (rest.map (fun l => if ts ≠ "" then (Spec.resultName env.safe r ++ ": " ++ ts) :: l else l), st₂) := by
-  simp only [createResults, h, hn, Bool.false_eq_true, if_false, bind, StateT.bind, Except.bind, pure,
-    StateT.pure, Except.pure]
+          .ok (if ts ≠ "" then (Spec.resultName env.safe r ++ ": " ++ ts) :: rest else rest, st₂) := by
+  simp only [createResults, h, bind, StateT.bind, Except.bind, pure, StateT.pure, Except.pure]
   cases typeStr env t st with
   | error e => rfl
   | ok x =>
@@ -342,37 +336,34 @@ theorem createResults_typed (env : Env) (r : Result) (rs : List Result) (st : St
       obtain ⟨rest, st₂⟩ := y
       simp [Spec.resultName]
 
-/-- without a `None` result: success of `createResults` is `ResultsRendered` -/
-theorem createResults_noNone_iff (env : Env) (rs : List Result) (st st' : St) (o : Option (List String))
-    (hn : ∀ r ∈ rs, isNoneResult r = false) :
-    createResults env rs st = .ok (o, st') ↔
-      ∃ texts, o = some texts ∧ ResultsRendered (typeStr env) (Spec.resultName env.safe) rs st texts st' := by
-  induction rs generalizing st o with
+/-- success of `createResults` is `ResultsRendered` — for every result list (a `None` result is a
+    result like any other) -/
+theorem pp_createResults_iff (env : Env) (rs : List Result) (st st' : St) (texts : List String) :
+    createResults env rs st = .ok (texts, st') ↔
+      ResultsRendered (typeStr env) (Spec.resultName env.safe) rs st texts st' := by
+  induction rs generalizing st texts with
   | nil =>
     constructor
     · intro h
       cases h
-      exact ⟨[], rfl, .nil _⟩
-    · rintro ⟨texts, rfl, hr⟩
+      exact .nil _
+    · intro hr
       cases hr
       rfl
   | cons r rs ih =>
-    have hn' : ∀ q ∈ rs, isNoneResult q = false := fun q hq => hn q (List.mem_cons_of_mem _ hq)
-    have hr0 : isNoneResult r = false := hn r List.mem_cons_self
     cases ht : r.type with
     | none =>
-      rw [createResults_untyped env r rs st ht, ih st o hn']
+      rw [createResults_untyped env r rs st ht, ih st texts]
       constructor
-      · rintro ⟨texts, rfl, hr⟩
-        exact ⟨texts, rfl, .untyped ht hr⟩
-      · rintro ⟨texts, rfl, hr⟩
+      · intro hr
+        exact .untyped ht hr
+      · intro hr
         cases hr with
-        | untyped _ hr => exact ⟨texts, rfl, hr⟩
+        | untyped _ hr => exact hr
         | empty h1 => rw [ht] at h1; cases h1
         | shown h1 => rw [ht] at h1; cases h1
     | some t =>
-      have hnn : isNoneNamed t = false := by rw [← isNoneResult_of_some ht]; exact hr0
-      rw [createResults_typed env r rs st ht hnn]
+      rw [createResults_typed env r rs st ht]
       constructor
       · intro h
         cases h1 : typeStr env t st with
@@ -386,106 +377,160 @@ theorem createResults_noNone_iff (env : Env) (rs : List Result) (st st' : St) (o
           | ok y =>
             obtain ⟨rest, st₂⟩ := y
             rw [h2] at h
-            cases h
-            obtain ⟨texts, rfl, hr⟩ := (ih st₁ rest hn').1 h2
             by_cases hts : ts = ""
             · subst hts
-              exact ⟨texts, by simp, .empty ht h1 hr⟩
-            · exact ⟨_, by simp [hts], .shown ht h1 hts hr⟩
-      · rintro ⟨texts, rfl, hr⟩
+              simp only [ne_eq, not_true_eq_false, if_false] at h
+              cases h
+              exact .empty ht h1 ((ih _ _).1 h2)
+            · simp only [ne_eq, hts, not_false_eq_true, if_true] at h
+              cases h
+              exact .shown ht h1 hts ((ih _ _).1 h2)
+      · intro hr
         cases hr with
         | untyped h1 => rw [ht] at h1; cases h1
         | empty h1 h2 h3 =>
           rw [ht] at h1; cases h1
           rw [h2]
           simp only
-          rw [(ih _ _ hn').2 ⟨_, rfl, h3⟩]
+          rw [(ih _ _).2 h3]
           simp
         | shown h1 h2 h3 h4 =>
           rw [ht] at h1; cases h1
           rw [h2]
           simp only
-          rw [(ih _ _ hn').2 ⟨_, rfl, h4⟩]
+          rw [(ih _ _).2 h4]
           simp [h3]
 
-theorem resultsBeforeNone_noNone (rs : List Result) : ∀ r ∈ resultsBeforeNone rs, isNoneResult r = false := by
-  induction rs with
-  | nil => simp [resultsBeforeNone]
-  | cons r rs ih =>
-    unfold resultsBeforeNone
-    split
-    · simp
-    · rename_i h
-      intro q hq
-      rcases List.mem_cons.1 hq with rfl | hq
-      · simpa using h
-      · exact ih q hq
+theorem pp_onlyNoneResult_iff (rs : List Result) :
+    onlyNoneResult rs = true ↔ ∃ r t, rs = [r] ∧ r.type = some t ∧ isNoneNamed t = true := by
+  match rs with
+  | [] => simp [onlyNoneResult]
+  | [r] =>
+    simp only [onlyNoneResult, isNoneResult_iff]
+    constructor
+    · rintro ⟨t, h1, h2⟩
+      exact ⟨r, t, rfl, h1, h2⟩
+    · rintro ⟨r', t, h, h1, h2⟩
+      cases h
+      exact ⟨t, h1, h2⟩
+  | _ :: _ :: _ => simp [onlyNoneResult]
 
-theorem resultsBeforeNone_append (pre post : List Result) (r : Result) (hr : isNoneResult r = true)
-    (hpre : ∀ q ∈ pre, isNoneResult q = false) : resultsBeforeNone (pre ++ r :: post) = pre := by
-  induction pre with
-  | nil => simp [resultsBeforeNone, hr]
-  | cons p pre ih =>
-    simp only [List.cons_append, resultsBeforeNone, hpre p List.mem_cons_self, Bool.false_eq_true, if_false]
-    rw [ih (fun q hq => hpre q (List.mem_cons_of_mem _ hq))]
-
-/-- with a `None` result: the results before the first one are rendered (a failure there is a
-    failure of the whole), everything from the `None` result on is ignored, the outcome is `none` -/
-theorem createResults_withNone (env : Env) (rs : List Result) (st : St) (h : rs.any isNoneResult = true) :
-    createResults env rs st =
-      match createResults env (resultsBeforeNone rs) st with
-      | .error e => .error e
-      | .ok (_, st') => .ok (none, st') := by
-  induction rs generalizing st with
-  | nil => simp at h
-  | cons r rs ih =>
-    cases hr : isNoneResult r with
-    | true =>
-      obtain ⟨t, ht, hnn⟩ := (isNoneResult_iff r).1 hr
-      rw [createResults_noneResult env r rs st ht hnn]
-      simp only [resultsBeforeNone, hr, if_true]
-      rfl
-    | false =>
-      have h' : rs.any isNoneResult = true := by simpa [hr] using h
-      have hb : resultsBeforeNone (r :: rs) = r :: resultsBeforeNone rs := by
-        simp [resultsBeforeNone, hr]
-      rw [hb]
-      cases ht : r.type with
-      | none =>
-        rw [createResults_untyped env r rs st ht, createResults_untyped env r _ st ht]
-        exact ih st h'
-      | some t =>
-        have hnn : isNoneNamed t = false := by rw [← isNoneResult_of_some ht]; exact hr
-        rw [createResults_typed env r rs st ht hnn, createResults_typed env r _ st ht hnn]
-        cases typeStr env t st with
-        | error e => rfl
-        | ok x =>
-          obtain ⟨ts, st₁⟩ := x
-          simp only
-          rw [ih st₁ h']
-          cases createResults env (resultsBeforeNone rs) st₁ with
-          | error e => rfl
-          | ok y => obtain ⟨rest, st₂⟩ := y; rfl
+/-- several results, or none at all, are never "only a `None` result" -/
+theorem pp_onlyNoneResult_of_length {rs : List Result} (h : rs.length ≠ 1) : onlyNoneResult rs = false := by
+  match rs, h with
+  | [], _ => rfl
+  | [_], h => exact absurd rfl h
+  | _ :: _ :: _, _ => rfl
 
 theorem createResultString_eq (env : Env) (rs : List Result) (st : St) :
     createResultString env rs st =
-      match createResults env rs st with
-      | .error e => .error e
-      | .ok (none, st') => .ok ("", st')
-      | .ok (some texts, st') =>
-        .ok (resultListText texts, addIf texts.isEmpty "result without type" st') := by
-  simp only [createResultString, bind, StateT.bind, Except.bind, pure]
-  cases createResults env rs st with
-  | error e => rfl
-  | ok x =>
-    obtain ⟨o, st'⟩ := x
-    cases o with
-    | none => rfl
-    | some texts =>
+      if onlyNoneResult rs = true then .ok ("", st)
+      else
+        match createResults env rs st with
+        | .error e => .error e
+        | .ok (texts, st') =>
+          .ok (resultListText texts, addIf texts.isEmpty "result without type" st') := by
+  have tail : ∀ rs' : List Result, onlyNoneResult rs' = false →
+      (do
+        let l ← createResults env rs'
+        match l with
+          | [] => do addTodo "result without type"; pure ""
+          | [r] => pure (" -> " ++ r)
+          | xs => pure (" -> (" ++ joinWith ", " xs ++ ")") : G String) st =
+      if onlyNoneResult rs' = true then .ok ("", st)
+      else
+        match createResults env rs' st with
+        | .error e => .error e
+        | .ok (texts, st') =>
+          .ok (resultListText texts, addIf texts.isEmpty "result without type" st') := by
+    intro rs' h
+    simp only [h, Bool.false_eq_true, if_false, bind, StateT.bind, Except.bind]
+    cases createResults env rs' st with
+    | error e => rfl
+    | ok x =>
+      obtain ⟨texts, st'⟩ := x
       match texts with
       | [] => rfl
       | [_] => rfl
       | _ :: _ :: _ => rfl
+  match rs with
+  | [] => exact tail [] rfl
+  | _ :: _ :: _ => exact tail _ rfl
+  | [r] =>
+    cases ht : r.type with
+    | none =>
+      have hb : onlyNoneResult [r] = false := by simp [onlyNoneResult, isNoneResult, ht]
+      refine Eq.trans ?_ (tail [r] hb)
+      simp only [createResultString, ht, Bool.false_eq_true, if_false]
+      rfl
+    | some t =>
+      have hb : onlyNoneResult [r] = isNoneNamed t := isNoneResult_of_some ht
+      cases hn : isNoneNamed t with
+      | true =>
+        rw [hn] at hb
+        simp only [createResultString, ht, hn, hb, if_true]
+        rfl
+      | false =>
+        rw [hn] at hb
+        refine Eq.trans ?_ (tail [r] hb)
+        simp only [createResultString, ht, hn, Bool.false_eq_true, if_false]
+        rfl
+
+/-! ### `ResultsRendered` on a concatenation -/
+
+theorem pp_resultsRendered_append {σ ε : Type} {render : AType → σ → Except ε (String × σ)}
+    {name : Result → String} {rs₁ rs₂ : List Result} {s s₁ s₂ : σ} {t₁ t₂ : List String}
+    (h₁ : ResultsRendered render name rs₁ s t₁ s₁) (h₂ : ResultsRendered render name rs₂ s₁ t₂ s₂) :
+    ResultsRendered render name (rs₁ ++ rs₂) s (t₁ ++ t₂) s₂ := by
+  induction h₁ with
+  | nil => exact h₂
+  | untyped h1 _ ih => exact .untyped h1 (ih h₂)
+  | empty h1 h2 _ ih => exact .empty h1 h2 (ih h₂)
+  | shown h1 h2 h3 _ ih => exact .shown h1 h2 h3 (ih h₂)
+
+/-- rendering `rs₁ ++ rs₂` is rendering `rs₁`, then `rs₂` in the state reached; the texts are concatenated -/
+theorem pp_resultsRendered_append_iff {σ ε : Type} {render : AType → σ → Except ε (String × σ)}
+    {name : Result → String} {rs₁ rs₂ : List Result} {s s₂ : σ} {texts : List String} :
+    ResultsRendered render name (rs₁ ++ rs₂) s texts s₂ ↔
+      ∃ t₁ s₁ t₂, ResultsRendered render name rs₁ s t₁ s₁ ∧ ResultsRendered render name rs₂ s₁ t₂ s₂ ∧
+        texts = t₁ ++ t₂ := by
+  constructor
+  · intro h
+    induction rs₁ generalizing s texts with
+    | nil => exact ⟨[], s, texts, .nil s, h, rfl⟩
+    | cons r rs₁ ih =>
+      cases h with
+      | untyped h1 h2 =>
+        obtain ⟨t₁, s₁, t₂, ha, hb, rfl⟩ := ih h2
+        exact ⟨t₁, s₁, t₂, .untyped h1 ha, hb, rfl⟩
+      | empty h1 h2 h3 =>
+        obtain ⟨t₁, s₁, t₂, ha, hb, rfl⟩ := ih h3
+        exact ⟨t₁, s₁, t₂, .empty h1 h2 ha, hb, rfl⟩
+      | shown h1 h2 h3 h4 =>
+        obtain ⟨t₁, s₁, t₂, ha, hb, rfl⟩ := ih h4
+        exact ⟨_ :: t₁, s₁, t₂, .shown h1 h2 h3 ha, hb, rfl⟩
+  · rintro ⟨t₁, s₁, t₂, ha, hb, rfl⟩
+    exact pp_resultsRendered_append ha hb
+
+/-- one result whose type renders as a non-empty text -/
+theorem pp_resultsRendered_cons_shown_iff {σ ε : Type} {render : AType → σ → Except ε (String × σ)}
+    {name : Result → String} {r : Result} {rs : List Result} {t : AType} {s s' : σ} {texts : List String}
+    (ht : r.type = some t) (hne : ∀ s tx s₁, render t s = .ok (tx, s₁) → tx ≠ "") :
+    ResultsRendered render name (r :: rs) s texts s' ↔
+      ∃ tx s₁ rest, render t s = .ok (tx, s₁) ∧ ResultsRendered render name rs s₁ rest s' ∧
+        texts = (name r ++ ": " ++ tx) :: rest := by
+  constructor
+  · intro h
+    cases h with
+    | untyped h1 => rw [ht] at h1; cases h1
+    | empty h1 h2 =>
+      rw [ht] at h1; cases h1
+      exact absurd rfl (hne _ _ _ h2)
+    | shown h1 h2 _ h4 =>
+      rw [ht] at h1; cases h1
+      exact ⟨_, _, _, h2, h4, rfl⟩
+  · rintro ⟨tx, s₁, rest, h1, h2, rfl⟩
+    exact .shown ht h1 (hne _ _ _ h1) h2
 
 theorem resultsRendered_length_le {σ ε : Type} {render : AType → σ → Except ε (String × σ)}
     {name : Result → String} {rs : List Result} {s s' : σ} {texts : List String}
@@ -555,6 +600,15 @@ theorem builtinName_ne_empty {n b : String} (h : builtinName n = some b) : b ≠
   repeat' split at h
   all_goals first | (cases h; decide) | cases h
 
+theorem pp_escapeKeyword_eq_empty (k : String) : escapeKeyword k = "" ↔ k = "" := by
+  unfold escapeKeyword
+  split
+  · rename_i h
+    constructor
+    · intro h'; simp [Generated.keywordWrap] at h'
+    · intro h'; subst h'; revert h; decide
+  · rfl
+
 /-- a class or builtin name never renders as the empty string -/
 theorem typeStr_named_ne_empty (env : Env) (n q : String) (s s' : St) (tx : String)
     (h : typeStr env (.named n q) s = .ok (tx, s')) : tx ≠ "" := by
@@ -580,10 +634,62 @@ theorem typeStr_named_ne_empty (env : Env) (n q : String) (s s' : St) (tx : Stri
           intro e; subst e; cases hn
         simp only [get, getThe, MonadStateOf.get, StateT.get, pure, Except.pure, StateT.bind, bind,
           Except.bind] at h
+        have hne' : escapeKeyword n ≠ "" := fun e => hne ((pp_escapeKeyword_eq_empty n).1 e)
         split at h
-        · change Except.ok (n, _) = _ at h
-          cases h; exact hne
-        · change Except.ok (n, _) = _ at h
-          cases h; exact hne
+        · change Except.ok (escapeKeyword n, _) = _ at h
+          cases h; exact hne'
+        · change Except.ok (escapeKeyword n, _) = _ at h
+          cases h; exact hne'
+
+/-! ### a `None` result that is rendered -/
+
+/-- the qualified name `builtins.None` is a builtin: nothing is imported -/
+theorem pp_addToImports_builtinsNone (env : Env) (s : St) :
+    addToImports env "builtins.None" s = .ok ((), s) := rfl
+
+/-- what the type of a `None` result (`isNoneNamed`: qualified name `builtins.None`, any name) renders
+    as: the table entry of the name if it has one (`None` ↦ `Nothing?`), otherwise the name itself;
+    nothing is imported -/
+theorem pp_typeStr_noneNamed (env : Env) (n : String) (s : St) :
+    typeStr env (.named n "builtins.None") s =
+      match builtinName n with
+      | some b => .ok (b, s)
+      | none =>
+        match n.toList with
+        | [] => .error .indexError
+        | c :: _ => .ok (escapeKeyword n,
+            addIf (c == '_' && !s.imports.contains "builtins.None") "internal class as type" s) := by
+  rw [typeStr]
+  cases hb : builtinName n with
+  | some b => rfl
+  | none =>
+    simp only [bind, StateT.bind, Except.bind, pp_addToImports_builtinsNone]
+    cases hn : n.toList with
+    | nil => rfl
+    | cons c cs =>
+      simp only [get, getThe, MonadStateOf.get, StateT.get, pure, Except.pure, StateT.bind, bind, Except.bind]
+      cases (c == '_' && !s.imports.contains "builtins.None") with
+      | true => simp only [addIf, if_true]; rfl
+      | false => simp only [addIf, Bool.false_eq_true, if_false]; rfl
+
+/-- `None` itself renders as `Nothing?`, in every state, leaving it unchanged -/
+theorem pp_typeStr_None (env : Env) (s : St) :
+    typeStr env (.named "None" "builtins.None") s = .ok ("Nothing?", s) := by
+  rw [typeStr]
+  rfl
+
+theorem pp_append_nothing (x : String) : x ++ ": " ++ "Nothing?" = x ++ ": Nothing?" := by
+  rw [String.append_assoc]
+  congr 1
+
+theorem pp_isNoneNamed_iff (t : AType) : isNoneNamed t = true ↔ ∃ n, t = .named n "builtins.None" := by
+  cases t <;> simp [isNoneNamed]
+
+theorem pp_resultListText_ne_empty {texts : List String} (h : texts ≠ []) : resultListText texts ≠ "" := by
+  intro e
+  have hl := congrArg String.length e
+  match texts, h with
+  | [_], _ => simp [resultListText, String.length_append] at hl
+  | _ :: _ :: _, _ => simp [resultListText, String.length_append] at hl
 
 end StubGen
